@@ -330,6 +330,8 @@ def _ev_call(self, n):
             except Undecidable:
                 recv = None
             if recv is not None:
+                if n.func.attr == "transpose" and not n.args and recv.k == "arr" and recv.t.ndim == 2:
+                    return self.method_call(recv, "transpose", n)
                 if n.func.attr == "sum" and not n.args and (recv.k == "vec" or (recv.k == "arr" and recv.t.ndim == 1)):
                     return vsum(self, as_vec(self, recv))
                 if n.func.attr == "max" and recv.k == "nz0":
@@ -341,8 +343,68 @@ def _ev_call(self, n):
     return _orig_call(self, n)
 
 
+def _norm_bound(b, n, default):
+    """Python slice bound b (z3 Int or None) on an axis of length n -> clamped index in [0, n]"""
+    if b is None:
+        return default
+    nb = z3.If(b < 0, b + n, b)
+    return z3.If(nb < 0, 0, z3.If(nb > n, n, nb))
+
+
+def ndview(ex, base, items, node):
+    """read-only view  A[l0:u0, l1:u1, ...]  (no steps; integer items drop the axis): a fresh array whose element at q is
+    A[l + q] per sliced axis, with Python's clamping of the bounds"""
+    a = base.t
+    if len(items) > a.ndim:
+        raise Undecidable("too many indices")
+    items = list(items) + [ast.Slice(None, None, None)] * (a.ndim - len(items))
+    starts, shape, fixed = [], [], []
+    for d, it in enumerate(items):
+        n_d = a.shape[d]
+        if isinstance(it, ast.Slice):
+            if it.step is not None:
+                raise Undecidable(f"slice with a step: {symex.src_of(node)}")
+            lo = _norm_bound(ex.to_int(ex.ev(it.lower)) if it.lower is not None else None, n_d, z3.IntVal(0))
+            hi = _norm_bound(ex.to_int(ex.ev(it.upper)) if it.upper is not None else None, n_d, n_d)
+            starts.append(lo)
+            shape.append(z3.If(hi - lo > 0, hi - lo, 0))
+            fixed.append(None)
+        else:
+            i = ex.to_int(ex.ev(it))
+            if not ex.spec_mode:
+                ex.oblige("bounds", f"{symex.src_of(node)}: 0 <= index{d} < extent{d}", z3.And(i >= 0, i < n_d), node)
+            fixed.append(i)
+            starts.append(None)
+    qs = [z3.Int(f"vw{d}!{next(ex.n)}") for d in range(len(shape))]
+    idx, k = [], 0
+    for d in range(a.ndim):
+        if fixed[d] is not None:
+            idx.append(fixed[d])
+        else:
+            idx.append(starts[d] + qs[k])
+            k += 1
+    term = ex.select(a, idx)
+    for q in reversed(qs):
+        term = z3.Lambda([q], term)
+    r = symex.ArrObj(f"view_{next(ex.n)}", a.elem, len(shape), ex.fm, shape=[z3.simplify(x) for x in shape], fresh=True)
+    r.is_bool = getattr(a, "is_bool", False)
+    r.contig = None
+    ex.objs[r.id] = r
+    ex.heap[r.id] = term
+    return Val("arr", r, symex.T("arr", elem=a.elem, ndim=len(shape)))
+
+
 def _ev_subscript(self, n):
     if self.c.py_mode and getattr(self.c, "vectors", False):
+        items_ = n.slice.elts if isinstance(n.slice, ast.Tuple) else [n.slice]
+        if any(isinstance(i, ast.Slice) and (i.lower is not None or i.upper is not None) for i in items_) and \
+                all(isinstance(i, ast.Slice) or not isinstance(i, (ast.List, ast.Tuple)) for i in items_):
+            try:
+                base0 = self.ev(n.value)
+            except Undecidable:
+                base0 = None
+            if base0 is not None and base0.k == "arr" and (base0.t.ndim >= 2 or len(items_) >= 2):
+                return ndview(self, base0, items_, n)
         if isinstance(n.slice, ast.Slice):
             base = self.ev(n.value)
             if base.k == "vec" or (base.k == "arr" and base.t.ndim == 1):
@@ -430,3 +492,144 @@ symex.Exec.ev_Subscript = _ev_subscript
 symex.Exec.ev_UnaryOp = _ev_unary
 symex.Exec.ev_Compare = _ev_compare
 symex.Exec.spec_call = _spec_call
+
+
+# ---------------------------------------------------------------- inlining of helper methods of the same class (py_mode)
+_orig_opaque = symex.Exec.opaque_call
+
+
+def _opaque_call(self, fn, n):
+    """`self.<helper>(...)` where <helper> is a method of the class the region belongs to, has no assumed contract
+    (call_facts) and no call assertion: the helper's current body is inlined (depth <= 2), so that moving code into
+    a private helper does not take it out of the contract's reach."""
+    if self.c.py_mode and getattr(self.c, "vectors", False) and isinstance(fn, str) and fn.startswith("self.") \
+            and fn.count(".") == 1 and fn not in self.c.call_facts and not any(k.startswith(f"{fn}#") for k in self.c.call_facts) \
+            and not any(k.split("#")[0] == "call:" + fn for k in self.c.asserts) and fn not in self.c.count_calls \
+            and getattr(self, "inline_depth", 0) < 2 and getattr(self.f, "file", None):
+        import ast as _ast
+        cls = self.f.name.split(".")[0] if "." in self.f.name else None
+        cls = cls or (self.f.qual.split(":")[-1].split(".")[0] if getattr(self.f, "qual", None) else None)
+        helper = _find_method(self.f.file, cls, fn[5:])
+        if helper is not None and not any(isinstance(d, _ast.Name) or isinstance(d, _ast.Attribute) or isinstance(d, _ast.Call)
+                                          for d in helper.decorator_list):
+            params = [a.arg for a in helper.args.args][1:]
+            defaults = helper.args.defaults
+            dmap = dict(zip(params[len(params) - len(defaults):], defaults)) if defaults else {}
+            args = [self.ev(a) for a in n.args]
+            kws = {k.arg: self.ev(k.value) for k in n.keywords if k.arg}
+            bound = {}
+            for i, pn in enumerate(params):
+                if i < len(args):
+                    bound[pn] = args[i]
+                elif pn in kws:
+                    bound[pn] = kws[pn]
+                elif pn in dmap:
+                    bound[pn] = self.ev(dmap[pn])
+                else:
+                    return _orig_opaque(self, fn, n)
+            return _inline_py(self, helper, bound)
+    return _orig_opaque(self, fn, n)
+
+
+_method_cache = {}
+
+
+def _find_method(path, cls, name):
+    import ast as _ast
+    key = (path, cls, name)
+    if key not in _method_cache:
+        found = None
+        try:
+            tree = _ast.parse(open(path).read())
+            for c in tree.body:
+                if isinstance(c, _ast.ClassDef) and c.name == cls:
+                    for m in c.body:
+                        if isinstance(m, _ast.FunctionDef) and m.name == name:
+                            found = m
+        except Exception:
+            found = None
+        _method_cache[key] = found
+    return _method_cache[key]
+
+
+def _inline_py(self, helper, bound):
+    # locals of the helper live in their own scope; `self.<attr>` names are shared (they are keys "self.x" of vars)
+    saved_vars = self.vars
+    saved_ret, saved_exits, saved_ls = self.returns, self.exits, self.loop_stack
+    shared_keys = {k: v for k, v in saved_vars.items() if k.startswith("self.") or k.startswith("#")}
+    self.vars = dict(shared_keys)
+    self.vars.update(bound)
+    self.returns, self.exits, self.loop_stack = [], None, self.loop_stack + [("inline:" + helper.name, None)]
+    self.inline_depth = getattr(self, "inline_depth", 0) + 1
+    g0 = self.guard
+    try:
+        self.block(helper.body)
+    finally:
+        self.inline_depth -= 1
+    rets = self.returns
+    inner = self.vars
+    self.vars = saved_vars
+    for k, v in inner.items():
+        if k.startswith("self.") or k.startswith("#"):
+            self.vars[k] = v
+    self.returns, self.exits, self.loop_stack = saved_ret, saved_exits, saved_ls
+    self.guard = g0
+    res = None
+    for g, v, heap in reversed(rets):
+        res = v if res is None else self.merge_vals(g, v, res)
+    return res if res is not None else Val("none")
+
+
+symex.Exec.opaque_call = _opaque_call
+
+
+# ---------------------------------------------------------------- block stores  A[l0:u0, l1:u1] = B  and  B.transpose()
+_orig_numpy_store = symex.Exec.numpy_store
+_orig_method2 = symex.Exec.method_call
+
+
+def _numpy_store(self, tgt, val, node):
+    if getattr(self.c, "vectors", False) and val.k == "arr":
+        items = self.index_list(tgt.slice)
+        base = self.ev(tgt.value)
+        if base.k == "arr" and len(items) == base.t.ndim and all(isinstance(i, ast.Slice) and i.step is None for i in items):
+            a, b = base.t, val.t
+            if b.ndim != a.ndim:
+                return False
+            los, his = [], []
+            for d, it in enumerate(items):
+                n_d = a.shape[d]
+                lo = _norm_bound(self.to_int(self.ev(it.lower)) if it.lower is not None else None, n_d, z3.IntVal(0))
+                hi = _norm_bound(self.to_int(self.ev(it.upper)) if it.upper is not None else None, n_d, n_d)
+                los.append(lo)
+                his.append(hi)
+                self.oblige("shape", f"{symex.src_of(tgt)}: the assigned array has the extent of the target block (axis {d})",
+                            b.shape[d] == z3.If(hi - lo > 0, hi - lo, 0), tgt)
+            qs = [z3.Int(f"bs{d}!{next(self.n)}") for d in range(a.ndim)]
+            inside = z3.And(*[z3.And(q >= lo, q < hi) for q, lo, hi in zip(qs, los, his)])
+            src = self.select(b, [q - lo for q, lo in zip(qs, los)])
+            if a.elem.kind == "float" and b.elem.kind != "float":
+                src = z3.ToReal(src) if self.fm.mode == "R" else src
+            term = z3.If(inside, src, self.select(a, qs))
+            for q in reversed(qs):
+                term = z3.Lambda([q], term)
+            self.heap[a.id] = term
+            return True
+    return _orig_numpy_store(self, tgt, val, node)
+
+
+def _method_call2(self, recv, name, n):
+    if getattr(self.c, "vectors", False) and recv.k == "arr" and recv.t.ndim == 2 and name == "transpose" and not n.args:
+        a = recv.t
+        i, j = z3.Int(f"tr0!{next(self.n)}"), z3.Int(f"tr1!{next(self.n)}")
+        r = symex.ArrObj(f"transpose_{next(self.n)}", a.elem, 2, self.fm, shape=[a.shape[1], a.shape[0]], fresh=True)
+        r.is_bool = getattr(a, "is_bool", False)
+        r.contig = None
+        self.objs[r.id] = r
+        self.heap[r.id] = z3.Lambda([i], z3.Lambda([j], self.select(a, [j, i])))
+        return Val("arr", r, recv.ty)
+    return _orig_method2(self, recv, name, n)
+
+
+symex.Exec.numpy_store = _numpy_store
+symex.Exec.method_call = _method_call2
